@@ -146,6 +146,23 @@ def run_case(case):
                         sigmode = mode
                         bad(method, clause, sigmode, d, kind)
 
+    # ---- integer-valued arguments (int arrays / lists of ints) are values like any other
+    xi = np.array([-1, 0, 1, 2, 3, 10])
+    for method in ("cdf", "pdf"):
+        try:
+            gf = np.asarray(getattr(const, method)(xi.astype(float)), dtype=float)
+            for kind, arg in (("int_ndarray", xi), ("int_list", xi.tolist()), ("int_scalar", None)):
+                count["calls"] = count.get("calls", 0) + 1
+                if kind == "int_scalar":
+                    gi = np.array([float(getattr(const, method)(int(v))) for v in xi])
+                else:
+                    gi = np.asarray(getattr(const, method)(arg), dtype=float)
+                with np.errstate(all="ignore"):
+                    same = (gi == gf) | (np.abs(gi - gf) <= 2e-15 * np.abs(gf)) | (np.isnan(gi) & np.isnan(gf))
+                if gi.shape != gf.shape or not same.all():
+                    bad(method, "integer_argument_vs_float", "constructed", {"x": xi, "int": gi, "float": gf}, kind)
+        except Exception as e:
+            bad(method, "exception", "constructed", {"type": type(e).__name__, "msg": str(e)[:200], "integer_argument": True}, "int")
     # ---- mutual consistency of the implementation itself (constructed instance)
     if "cdf" in base and "pdf" in base:
         F, f = base["cdf"], base["pdf"]
